@@ -51,7 +51,8 @@ Record case := Case {
   c_univ : list Z;             (* keys and values the observers are asked about *)
   c_nil_len : Z;               (* Len called on a nil *Bimap *)
   c_init : list hobs;          (* observations before the first operation *)
-  c_steps : list cstep
+  c_steps : list cstep;        (* the history *)
+  c_fan : list cstep           (* alternatives: each one is run, on its own, on the state after c_steps *)
 }.
 
 Definition zz_eqb : Z * Z -> Z * Z -> bool := prod_eqb Z.eqb Z.eqb.
@@ -92,17 +93,21 @@ Definition check_handle_obs (u : list Z) (st : state) (ho : hobs) : bool :=
   | None => false
   end.
 
-Fixpoint check_steps (u : list Z) (st : state) (steps : list cstep) : bool :=
+(* runs the steps, checking the observations on the way; None = a mismatch (or a panic) *)
+Fixpoint check_steps (u : list Z) (st : state) (steps : list cstep) : option state :=
   match steps with
-  | [] => true
+  | [] => Some st
   | St o hos :: rest =>
       match step st (to_op o) with
-      | Ok st' => forallb (check_handle_obs u st') hos && check_steps u st' rest
-      | Panic _ => false     (* the real code never panics on these histories *)
+      | Ok st' => if forallb (check_handle_obs u st') hos then check_steps u st' rest else None
+      | Panic _ => None     (* the real code never panics on these histories *)
       end
   end.
 
 Definition check_case (c : case) : bool :=
   (Len None =? c_nil_len c) &&
   forallb (check_handle_obs (c_univ c) init_state) (c_init c) &&
-  check_steps (c_univ c) init_state (c_steps c).
+  match check_steps (c_univ c) init_state (c_steps c) with
+  | Some st => forallb (fun alt => match check_steps (c_univ c) st [alt] with Some _ => true | None => false end) (c_fan c)
+  | None => false
+  end.
